@@ -198,6 +198,19 @@ def run_idtoken(ctx):
             params["code"] = code
         if rng.random() < 0.3:
             params["max_age"] = rng.choice([0, 100])
+        # look-alikes: a claim of another JSON type that prints (or converts to octets) like the expected text must not be taken for it
+        look = None
+        if rng.random() < 0.2:
+            look = rng.choice([("123", 123), ("1.5", 1.5), ("True", True), ("None", None), ("foo", [102, 111, 111]), ("1", True), ("1", 1), ("0", 0), ("['cid']", ["cid"]),
+                               ("cid", ["c", "i", "d"]), ("{}", {}), ("[]", [])])
+            where = rng.choice(["nonce", "client_id:aud", "client_id:azp", "sub", "iss"])
+            if where == "nonce":
+                params["nonce"], claims["nonce"] = look
+            elif where == "client_id:aud":
+                params["client_id"], claims["aud"] = look
+            elif where == "client_id:azp":
+                params["client_id"] = look[0]
+                claims["aud"], claims["azp"] = [look[0], "other"], look[1]
         opts = {}
         good = {"iss": {"essential": True, "values": ["https://op"]}, "sub": {"value": "u"},
                 "aud": {"essential": True, "value": "cid"}, "acr": {"validate": "always"}}
@@ -207,6 +220,10 @@ def run_idtoken(ctx):
                 opts[name] = rng.choice(option_pool())
             elif r < 0.4 and name in good:
                 opts[name] = good[name]
+        if look is not None and where == "sub":
+            opts["sub"], claims["sub"] = {"essential": True, "value": look[0]}, look[1]
+        if look is not None and where == "iss":
+            opts["iss"], claims["iss"] = {"essential": True, "values": [look[0]]}, look[1]
         leeway = rng.choice([0, 5])
         check_one(ctx, kind, classes[kind], claims, {"alg": alg}, opts, params, rng.choice([NOW, NOW + 10, NOW + 11]), leeway, "idt")
 
